@@ -35,7 +35,7 @@ wrap!(leg_c01, "C01", c01, ["data", "state", "lencode"]);
 wrap!(leg_c01_bmap, "C01", c01, ["bmap"]);
 wrap!(leg_c02, "C02", c02, ["random", "header", "body", "backends", "adjacent"]);
 wrap!(leg_c04, "C04", c04, ["roundtrip", "sweep", "canonical", "canonsweep"]);
-wrap!(leg_c05, "C05", c05, ["random", "sweep", "lengths"]);
+wrap!(leg_c05, "C05", c05, ["random", "sweep", "pairsweep", "lengths"]);
 wrap!(leg_c06, "C06", c06, ["binary", "slices", "generated"]);
 wrap!(leg_c14, "C14", c14, ["buffers"]);
 
